@@ -65,13 +65,21 @@ def audit(prop):
         rc = 0
     else:
         for f in os.listdir(cache):
-            if f.startswith(prop + "."):
-                os.remove(os.path.join(cache, f))
+            if f.startswith(prop + ".") and f.endswith(".out"):
+                try:
+                    os.remove(os.path.join(cache, f))
+                except OSError:
+                    pass
         # .vo files are up to date (ensure_tools ran make); re-check this file to capture Print Assumptions
-        rc, out, dt = run(["coqc", "-Q", ".", "Entrait", "-o", os.path.join(cache, prop + ".vo"), "Properties/%s.v" % prop], cwd=COQ, timeout=1800)
+        import shutil
+        tmpd = os.path.join(cache, "tmp-%d" % os.getpid())
+        os.makedirs(tmpd, exist_ok=True)
+        rc, out, dt = run(["coqc", "-Q", ".", "Entrait", "-o", os.path.join(tmpd, prop + ".vo"), "Properties/%s.v" % prop], cwd=COQ, timeout=1800)
+        shutil.rmtree(tmpd, ignore_errors=True)
         if rc == 0:
-            with open(outp, "w") as fh:
+            with open(outp + ".tmp%d" % os.getpid(), "w") as fh:
                 fh.write(out)
+            os.replace(outp + ".tmp%d" % os.getpid(), outp)
     if rc != 0:
         res["problems"].append("coqc failed on Properties/%s.v: %s" % (prop, out[-800:]))
         return res
